@@ -62,7 +62,7 @@ Proof.
   unfold wait_join. destruct (j_kind (join_of s gj)) eqn:K.
   - apply inv_top; try assumption. cbn. auto.
   - destruct (fut_state s gj) eqn:F.
-    + destruct (existsb (Nat.eqb (j_ftask (join_of s gj))) (cq s ++ steal s)) eqn:Ex.
+    + unfold untimed_wait_inline. cbn [andb]. destruct (existsb (Nat.eqb (j_ftask (join_of s gj))) (cq s ++ steal s)) eqn:Ex.
       * apply existsb_eqb_in in Ex. set (t := j_ftask (join_of s gj)) in *.
         rewrite start_task_restack by exact Ha.
         set (sT := with_stack s a (set_top x r MRun :: below)).
@@ -79,7 +79,7 @@ Proof.
         -- intros u Hu. change (steal sT) with (steal s). apply filter_neqb_in in Hu. tauto.
         -- exact Ex.
       * apply inv_top; try assumption. exact Logic.I.
-    + apply inv_top; try assumption. cbn. repeat split; auto. unfold fut_state in F. rewrite F. discriminate.
+    + apply inv_top; try assumption. cbn. repeat split; auto; [rewrite K; reflexivity | unfold fut_state in F; rewrite F; discriminate].
     + apply inv_top; try assumption. exact Logic.I.
 Qed.
 
@@ -287,7 +287,7 @@ Lemma len_wait_join s a x r below gj : length (agents (wait_join s a x r below g
 Proof.
   unfold wait_join. destruct (j_kind (join_of s gj)); [apply len_with_stack|].
   destruct (fut_state s gj); try apply len_with_stack.
-  destruct (existsb _ _); [rewrite len_start_task; reflexivity | apply len_with_stack].
+  destruct (untimed_wait_inline _ && existsb _ _); [rewrite len_start_task; reflexivity | apply len_with_stack].
 Qed.
 Lemma len_spawn s a x r below j k body c : length (agents (spawn s a x r below j k body c)) = length (agents s).
 Proof.
@@ -400,7 +400,7 @@ Qed.
    Schedule: the worker takes F1's functor, submits the leaf and enters S2.wait(); the root submits the waiter task and enters
    S3.wait(), where it takes the LEAF; the worker's wait takes the WAITER task and runs it on top of F1's functor: Future::wait
    finds F1 running -- by the very thread that now blocks on it.  The leaf finishes; F1's functor can never resume. *)
-Definition witness : list op := [OSpawn 1 JFut [OSpawn 2 JSet [OWork]; OWait 2]; OSpawn 3 JSet [OWaitUp 1]; OWait 3; OWait 1].
+Definition witness : list op := [OSpawn 1 (JFut true) [OSpawn 2 JSet [OWork]; OWait 2]; OSpawn 3 JSet [OWaitUp 1]; OWait 3; OWait 1].
 Definition witness_sched : list Z := [0;1; 1;0; 1;1; 1; 0;1; 0; 0;0; 1;0; 1; 0; 0]%Z.
 Definition dead : state := fst (fst (run_nested 40 witness 1 witness_sched)).
 
